@@ -43,6 +43,7 @@ var c11BestEffort = []BestEffort{
 	{Func: "(*db.DatabaseCollectionWithUser).updateAndReturnDoc", Callee: "releaseSequence", Reason: relNote},
 	{Func: "(*db.DatabaseContext).UpdatePrincipal", Callee: "releaseSequence", Reason: relNote},
 	{Func: "(*db.DatabaseContext).assignSequence", Callee: "releaseSequence", Reason: relNote},
+	{Func: "(*db.DatabaseContext).DeleteRole", Callee: "releaseSequence", Reason: relNote},
 	{Func: "(*db.sequenceAllocator).nextSequenceGreaterThan", Callee: "releaseSequenceRange", Reason: relNote},
 	{Func: "(*db.sequenceAllocator).nextSequenceGreaterThan", Callee: "_releaseCurrentBatch", Reason: relNote},
 	{Func: "(*db.sequenceAllocator).releaseUnusedSequences", Callee: "releaseSequenceRange", Reason: relNote},
